@@ -105,6 +105,10 @@ usage:
 			if err != nil {
 				return nil, fmt.Errorf("arg: %w", err)
 			}
+			if i == 1 {
+				// a branch factor of 1 makes the tree's layer computation loop forever
+				return nil, fmt.Errorf("arg: entries_per_node must be at least 2")
+			}
 			table.S3Options.EntriesPerNode = int(i)
 		case "node_cache_entries":
 			i, err := strconv.ParseInt(s[1], 0, 32)
